@@ -17,6 +17,11 @@ class Undecided(Exception):
     pass
 
 
+class Misfit(Undecided):
+    """a base operation was handed arguments outside its contract (a value that does not fit the field width): the caller of the
+    primitive, not the evaluation, is at fault -- rules that evaluate a derived primitive on valid arguments report it"""
+
+
 class Raised(Exception):
     def __init__(self, name):
         Exception.__init__(self, name)
@@ -218,7 +223,7 @@ class Machine(object):
             if w == 0:
                 return bits, None
             if v >= (1 << w):
-                raise Undecided('value %d does not fit %d bits' % (v, w))
+                raise Misfit('hands the value %d to a field of %d bits' % (v, w))
             return bits + format(v, '0%db' % w), None
         if name == 'append_bit':
             return bits + ('1' if a[0] else '0'), None
@@ -287,3 +292,34 @@ class Machine(object):
 
 class _PathDead(Exception):
     """the bit string is exhausted on this path"""
+
+
+def check_append_bits(model, enc_cls):
+    """Evaluate Encoder.append_bits(data, n) -- the *body* of the method, not the trusted model -- on bit fields whose octets carry exactly
+    the bits needed and more than needed; the emitted bits must be the first n bits of data after the prefix already written.
+    -> (number of cases that held, number undecided, first failure (label, message) or None, first undecided reason or None)"""
+    E = Machine(model, enc_cls, 'enc')
+    n_ok = n_und = 0
+    bad = und = None
+    for data, n in ((b'\xa5', 8), (b'\xa5', 3), (b'\xa5\xff', 3), (b'\xa5\xff', 9), (b'\xa5\xff\x0f', 9), (b'\x00\x01', 16), (b'\xff\xff\xff\xff', 1), (b'\x80', 1),
+                    (b'\x12\x34\x56', 20), (b'', 0), (b'\x01', 0)):
+        for prefix in ('', '101'):
+            label = '%d bits of %s after the bits %r' % (n, data.hex() or "''", prefix)
+            want = prefix + ''.join(format(x, '08b') for x in data)[:n]
+            try:
+                bits, _ = E.run('append_bits', [data, n], prefix)
+            except Misfit as e:
+                bad = bad or (label, 'the primitive %s (it overwrites the bits written before)' % e)
+                continue
+            except Undecided as e:
+                n_und += 1
+                und = und or '%s: %s' % (label, e)
+                continue
+            except Raised as e:
+                bad = bad or (label, 'raises %s' % e.name)
+                continue
+            if bits != want:
+                bad = bad or (label, 'the first %d bits of %s are %s, the encoder emits %s' % (n, data.hex(), want[len(prefix):] or '(nothing)', bits[len(prefix):] or '(nothing)'))
+            else:
+                n_ok += 1
+    return n_ok, n_und, bad, und
